@@ -135,6 +135,13 @@ def digitsVal (s : Str) : Nat := Nat.ofDigitChars 10 s 0
 
 def str (s : String) : Str := s.toList
 
+/-- Python `a < b` on strings: lexicographic by code point -/
+def strLt : Str → Str → Bool
+  | [], [] => false
+  | [], _ :: _ => true
+  | _ :: _, [] => false
+  | a :: as, b :: bs => if a.toNat < b.toNat then true else if a.toNat > b.toNat then false else strLt as bs
+
 /-- the first character exists and satisfies `p` -/
 def headP (p : Char → Bool) : Str → Bool
   | [] => false
